@@ -3,6 +3,7 @@ package c23seq
 import (
 	"fmt"
 	"runtime"
+	"strings"
 	"time"
 )
 
@@ -48,7 +49,7 @@ func (d *detChecker) step(op byte, o obs) (string, bool, bool) {
 			return "", true, false
 		case 'd':
 			return opn + "-done-before-end", false, false
-		case 'e':
+		case 'e', 'c':
 			return "", false, true
 		}
 		return opn + "-unexpected-" + kindName(o.K), false, false
@@ -63,9 +64,9 @@ func (d *detChecker) step(op byte, o obs) (string, bool, bool) {
 	case 'e', 'c':
 		switch o.K {
 		case 'v':
-			return opn + "-value-past-input-error", false, false
+			return failureIgnored(opn, r, false), false, false
 		case 'd':
-			return opn + "-input-error-swallowed-as-done", false, false
+			return failureIgnored(opn, r, true), false, false
 		case 'u', 'p':
 			return opn + "-unexpected-" + kindName(o.K), false, false
 		}
@@ -87,6 +88,21 @@ func (d *detChecker) step(op byte, o obs) (string, bool, bool) {
 	return "spec-bug", false, false
 }
 
+// failureIgnored names the deviation "an input failed (specification result r) and the adapter went on as if it
+// had not": a generic error keeps the two historical classes (a value from beyond the error / Done instead of
+// the error); for every other kind of failure (cancellation of the request context, cancellation-class error
+// value, Done look-alike) both symptoms are one mechanism: the failure was classified as exhaustion.
+func failureIgnored(opn string, r obs, done bool) string {
+	cls := errClass(r)
+	if cls == "input-error" {
+		if done {
+			return opn + "-input-error-swallowed-as-done"
+		}
+		return opn + "-value-past-input-error"
+	}
+	return opn + "-" + cls + "-treated-as-exhausted"
+}
+
 // mergeChecker: iterator.Merge has no doc comment; what is written down is "the merge-sort algorithm produces
 // sorted output only when both inputs are individually sorted" (IsOrdered), "Equal values - advance both
 // iterators to skip duplicate" (inline) and ErrHeadNotSupportedMergedIterator. Demanded for sorted inputs:
@@ -99,6 +115,7 @@ type mergeChecker struct {
 	maxMul  [3]int
 	last    int
 	errSrc  bool
+	failed  obs // what the (first, generic preferred) failing input answers at its end
 	safeMax int // largest symbol index that may still be yielded given the failed inputs
 }
 
@@ -118,6 +135,9 @@ func newMergeChecker(ins []InSpec) *mergeChecker {
 			strict = false
 		}
 		if in.term() != termDone {
+			if f := (&rin{term: in.term()}).get(false); !m.errSrc || errClass(f) == "input-error" {
+				m.failed = f
+			}
 			m.errSrc = true
 			if mx < m.safeMax {
 				m.safeMax = mx
@@ -151,7 +171,7 @@ func (m *mergeChecker) step(op byte, o obs) (string, bool, bool) {
 		case m.emitted[s] >= m.maxMul[s]:
 			return "next-duplicate-value", false, false
 		case s > m.safeMax:
-			return "next-value-past-input-error", false, false
+			return failureIgnored("next", m.failed, false), false, false
 		}
 		for k := 0; k < s; k++ {
 			if m.total[k] > 0 && m.emitted[k] == 0 {
@@ -163,7 +183,7 @@ func (m *mergeChecker) step(op byte, o obs) (string, bool, bool) {
 		return "", true, false
 	case 'd':
 		if m.errSrc {
-			return "next-input-error-swallowed-as-done", false, false
+			return failureIgnored("next", m.failed, true), false, false
 		}
 		for k := range m.total {
 			if m.total[k] > 0 && m.emitted[k] == 0 {
@@ -171,9 +191,9 @@ func (m *mergeChecker) step(op byte, o obs) (string, bool, bool) {
 			}
 		}
 		return "", true, false
-	case 'e':
+	case 'e', 'c':
 		if !m.errSrc {
-			return "next-unexpected-input-error", false, false
+			return "next-unexpected-" + kindName(o.K), false, false
 		}
 		return "", false, false
 	}
@@ -193,6 +213,7 @@ type adapter struct {
 	headUnsupported bool
 	lazyInputs      bool // documented: a later input is not read before the earlier one is exhausted
 	asyncStop       bool // Stop hands the remaining inputs to a goroutine (Drain)
+	racyUnderCancel bool // the adapter selects between ctx.Done() and another ready channel: results under a cancelled context depend on the runtime's choice
 	quickLen        int  // quick tier: input length bound for this adapter (0 = the general bound)
 	build           func(e *env, ins []InSpec, p int) (implIter, checker)
 	open            string // aspects left open for this adapter
@@ -214,6 +235,7 @@ type outcome struct {
 	class string // "" = conforms
 	early bool
 	multi bool // an input was stopped more than once (informational)
+	post  int  // calls judged although the request context was already cancelled
 	// where and what (rendered by describe only when a deviation is reported)
 	op   byte
 	idx  int
@@ -255,13 +277,34 @@ func waitClosed(e *env) bool {
 	}
 }
 
-func needsCancel(ins []InSpec) bool {
+// ctxModeFor: which request context a case needs (see newEnvMode): a deadline context if an input or the script
+// lets the deadline pass, a cancellable one if something cancels (or the adapter's Stop works asynchronously).
+func ctxModeFor(ad *adapter, ins []InSpec, script string) int {
+	mode := 0
+	if ad.asyncStop {
+		mode = 1
+	}
 	for _, in := range ins {
-		if in.term() == termCancel {
-			return true
+		switch in.term() {
+		case termCancel:
+			if mode == 0 {
+				mode = 1
+			}
+		case termDeadline:
+			mode = 2
 		}
 	}
-	return false
+	for i := 0; i < len(script); i++ {
+		switch script[i] {
+		case 'C':
+			if mode == 0 {
+				mode = 1
+			}
+		case 'T':
+			mode = 2
+		}
+	}
+	return mode
 }
 
 // runner holds the state of one case (no closures: tens of millions of cases are executed).
@@ -306,6 +349,14 @@ func (o outcome) describe() string {
 func (r *runner) step(op byte, idx int, epi bool) (o obs) {
 	r.curOp, r.curIdx, r.curEpi = op, idx, epi
 	e, ad := r.e, r.ad
+	if op == 'C' || op == 'T' {
+		// the caller's context is cancelled / its deadline passes between two calls
+		e.fire()
+		if r.trace != nil {
+			*r.trace = append(*r.trace, map[byte]string{'C': "Cancel", 'T': "Deadline"}[op])
+		}
+		return obs{K: 'o'}
+	}
 	if op == 'S' {
 		r.impl.stop()
 		if r.trace != nil {
@@ -330,10 +381,27 @@ func (r *runner) step(op byte, idx int, epi bool) (o obs) {
 	if r.trace != nil {
 		*r.trace = append(*r.trace, string(op)+"→"+o.String())
 	}
-	if e.fired.Load() {
-		r.comparing = false // results under a cancelled context are not specified
-		return
+	fired := e.fired.Load()
+	if fired {
+		// Under a cancelled request context: Next/Head after Stop are not judged (Stop says Done, "a cancelled
+		// context wins" says ctx.Err()), nor is an adapter whose answer depends on a select between ready channels.
+		if r.stopped || ad.racyUnderCancel {
+			r.comparing = false
+			return
+		}
+		if !r.comparing {
+			return
+		}
+		r.out.post++
+		if o.K == 'c' {
+			r.comparing = false // the context's error: always acceptable from now on, nothing is specified after it
+			return
+		}
+		// anything else is judged as usual: a value must be the next one of the specified sequence (a prefix is
+		// fine), Done is acceptable only where the specified sequence is complete.
 	}
+	r.judge(op, idx, epi, o, fired)
+	// reported after the comparison of the result, which names the mechanism more precisely when it sees one
 	if ad.lazyInputs && !r.stopped {
 		for j := 1; j < len(e.stats); j++ {
 			if e.stats[j].touched() && !e.stats[j-1].doneSeen.Load() {
@@ -341,6 +409,11 @@ func (r *runner) step(op byte, idx int, epi bool) (o obs) {
 			}
 		}
 	}
+	return
+}
+
+func (r *runner) judge(op byte, idx int, epi bool, o obs, fired bool) {
+	ad := r.ad
 	if r.stopped {
 		if op == 'N' && o.K != 'd' {
 			r.fail("next-after-stop-returns-"+kindName(o.K), op, idx, epi, o, "after Stop (Iterator.Stop: any subsequent Next must return ErrIteratorDone)")
@@ -365,6 +438,9 @@ func (r *runner) step(op byte, idx int, epi bool) (o obs) {
 		r.headValid, r.headID = true, o.ID
 	}
 	class, cont, early := r.chk.step(op, o)
+	if fired && strings.HasSuffix(class, "-done-before-end") {
+		class = strings.TrimSuffix(class, "done-before-end") + "context-cancellation-treated-as-exhausted"
+	}
 	if class != "" {
 		r.fail(class, op, idx, epi, o, "")
 		r.comparing = false
@@ -380,8 +456,15 @@ func (r *runner) step(op byte, idx int, epi bool) (o obs) {
 }
 
 // runCase executes script (then an epilogue: read to the end, Stop, Next, Head) on a fresh adapter instance.
+// Script letters: N Next, H Head, S Stop, C the request context is cancelled, T its deadline passes; a trailing
+// '+' selects the epilogue that asks Head before every Next (so that Head, too, meets every position of the
+// sequence including the failure).
 func runCase(ad *adapter, ins []InSpec, p int, script string, trace *[]string) (out outcome) {
-	e := newEnv(needsCancel(ins) || ad.asyncStop)
+	alt := strings.HasSuffix(script, "+")
+	if alt {
+		script = script[:len(script)-1]
+	}
+	e := newEnvMode(ctxModeFor(ad, ins, script))
 	r := runner{ad: ad, e: e, trace: trace, comparing: true}
 	defer func() {
 		if pv := recover(); pv != nil {
@@ -402,6 +485,13 @@ func runCase(ad *adapter, ins []InSpec, p int, script string, trace *[]string) (
 	n := 0
 	if !r.stopped {
 		for k := 0; k < total+2 && r.comparing; k++ {
+			if alt {
+				r.step('H', n, true)
+				n++
+				if !r.comparing {
+					break
+				}
+			}
 			o := r.step('N', n, true)
 			n++
 			if o.K != 'v' {
